@@ -1,6 +1,7 @@
 import LoraVerif.Model.Mac
 import LoraVerif.Gen.SessionStatic
-import LoraVerif.Gen.FrontEndStatic
+import LoraVerif.Props.TieA.SetAdr
+import LoraVerif.Props.TieA.Rx2Complete
 /-!
 # C12, tie A: the ADR thresholds of `session.rs`
 
@@ -44,19 +45,51 @@ theorem tieA_adrConstants :
 
 #print axioms tieA_backoffDue
 #print axioms tieA_adrAckLimitReached
-/-- The MAC-level histories of the correspondence are driven through the cfg-guarded facade
-`VerifMac`, whose `set_adr` / `set_datarate` repeat the statements of the two front-ends'
-`Device::set_adr` / `Device::set_datarate`.  The three bodies of the CURRENT source, normalised by
-the translator (parameters renamed positionally, `self.shared.mac` written `self.mac`), are the same
-text: what the correspondence establishes for the facade (it behaves like `macSetAdr` /
-`macSetDatarate`) is established for the statements the front-ends execute.  (The front-ends are
-also driven directly: class `device-adr-silent-run`.) -/
-theorem tieA_setAdr_mirror :
-    Gen.FrontEndStatic.async_set_adr = Gen.FrontEndStatic.hook_set_adr ∧
-    Gen.FrontEndStatic.nb_set_adr = Gen.FrontEndStatic.hook_set_adr := ⟨rfl, rfl⟩
+/-- builder L — `Device::set_adr` of the async front-end, of the non-blocking front-end and of the
+cfg-guarded hook facade `VerifMac` (through which the MAC-level histories of the correspondence are
+driven) as SEMANTIC functions: each, translated from its current source (`Gen/SetAdrAsync.lean`,
+`Gen/SetAdrNb.lean`, `Gen/SetAdrHook.lean`; `Mac::get_session_mut`, an `Option<&mut Session>`, as a
+getter/setter pair), IS the model's `macSetAdr` on the `Mac` value it holds: the ADR flag is stored,
+and switching ADR off in a joined session resets `adr_ack_cnt`; nothing else changes.  This replaces
+the former textual mirror theorem (`tieA_setAdr_mirror`: three identical texts), which a harmless
+rewrite of one body broke; the three bodies may now differ as long as each means `macSetAdr`. -/
+theorem tieA_set_adr (m0 : MacState) (on : Bool) :
+    (∀ d : Gen.SetAdrAsync.Device, TieA.Async.macOf m0 (Gen.SetAdrAsync.Device.set_adr d on).mac = macSetAdr (TieA.Async.macOf m0 d.mac) on) ∧
+    (∀ d : Gen.SetAdrNb.Device, TieA.Nb.macOf m0 (Gen.SetAdrNb.Device.set_adr d on).shared.mac = macSetAdr (TieA.Nb.macOf m0 d.shared.mac) on) ∧
+    (∀ d : Gen.SetAdrHook.VerifMac, TieA.Hook.macOf m0 (Gen.SetAdrHook.VerifMac.set_adr d on).mac = macSetAdr (TieA.Hook.macOf m0 d.mac) on) :=
+  ⟨fun d => TieA.Async.tieA_set_adr m0 d on, fun d => TieA.Nb.tieA_set_adr m0 d on, fun d => TieA.Hook.tieA_set_adr m0 d on⟩
 
-theorem tieA_setDatarate_mirror :
-    Gen.FrontEndStatic.async_set_datarate = Gen.FrontEndStatic.hook_set_datarate ∧
-    Gen.FrontEndStatic.nb_set_datarate = Gen.FrontEndStatic.hook_set_datarate := ⟨rfl, rfl⟩
+/-- likewise `set_datarate` of the three = the model's `macSetDatarate` (C09 / C12: the data rate
+otherwise changes only by an accepted LinkADRReq or the ADR back-off) -/
+theorem tieA_set_datarate (m0 : MacState) (dr : Gen.Region.DR) :
+    (∀ d : Gen.SetAdrAsync.Device, TieA.Async.macOf m0 (Gen.SetAdrAsync.Device.set_datarate d dr).mac = macSetDatarate (TieA.Async.macOf m0 d.mac) dr.toInt.toNat) ∧
+    (∀ d : Gen.SetAdrNb.Device, TieA.Nb.macOf m0 (Gen.SetAdrNb.Device.set_datarate d dr).shared.mac = macSetDatarate (TieA.Nb.macOf m0 d.shared.mac) dr.toInt.toNat) ∧
+    (∀ d : Gen.SetAdrHook.VerifMac, TieA.Hook.macOf m0 (Gen.SetAdrHook.VerifMac.set_datarate d dr).mac = macSetDatarate (TieA.Hook.macOf m0 d.mac) dr.toInt.toNat) :=
+  ⟨fun d => TieA.Async.tieA_set_datarate m0 d dr, fun d => TieA.Nb.tieA_set_datarate m0 d dr, fun d => TieA.Hook.tieA_set_datarate m0 d dr⟩
 
+#print axioms tieA_set_adr
+#print axioms tieA_set_datarate
+
+/-- builder L — the WHOLE method: the state-passing translation of the current source of
+`Session::rx2_complete` (`Gen/SessionFn.lean`) is the model's `rx2Complete` on every session whose
+counters fit `u32` and every configuration: `adr_ack_cnt` counts (saturating) only while ADR is on, the
+data rate steps to `next_lower_datarate` exactly at 96, 128, … and only if a lower rate exists, and the
+answer is `NoAck` exactly after a confirmed uplink.  (`C12.timeout_refines`, `C12.stepdown_only_at`
+are about that model function.)  `next_lower_datarate` itself is abstract in the translation; it is
+instantiated with the model's `nextLowerDatarate` (tied by the correspondence).  Proved in
+`Props/TieA/Rx2Complete.lean`. -/
+theorem tieA_rx2_complete (s0 : Session) (gs : Gen.SessionFn.Session) (g : Gen.SessionFn.Configuration) (r : RegionId)
+    (hw : TieA.SessWF gs) :
+    (Gen.SessionFn.Session.rx2_complete gs g (TieA.regionOf r)).bind
+        (fun o => (TieA.respOf o.1).map (fun resp => (resp, TieA.sessOf s0 o.2.1, TieA.cfgOf o.2.2)))
+      = some (rx2Complete (TieA.sessOf s0 gs) (TieA.cfgOf g) r) :=
+  TieA.tieA_rx2_complete s0 gs g r hw
+
+/-- non-vacuity: at count 127 with ADR on, EU868 DR3 → DR2, the count becomes 128 -/
+example :
+    (Gen.SessionFn.Session.rx2_complete ⟨true, 200, some 3, 127⟩ ⟨._3, 1000, 5000, 6000, none, 0, none, none, true⟩ (TieA.regionOf .EU868)).map
+        (fun o => (o.1, o.2.1.adr_ack_cnt, o.2.2.data_rate))
+      = some (.NoAck, 128, ._2) := by decide
+
+#print axioms tieA_rx2_complete
 end C12
